@@ -225,7 +225,7 @@ func PanicClass(r interface{}) string {
 		strings.Contains(l, "index out of bounds"), strings.Contains(l, "slice bounds"),
 		strings.Contains(l, "out of range") && (strings.Contains(l, "reflect") || strings.Contains(l, "index") || strings.Contains(l, "slice")),
 		strings.Contains(l, "len out of range"), strings.Contains(l, "cap out of range"),
-		strings.Contains(l, "makeslice"), strings.Contains(l, "negative len"), strings.Contains(l, "negative cap"),
+		strings.Contains(l, "makeslice"), strings.Contains(l, "makechan"), strings.Contains(l, "makemap"), strings.Contains(l, "negative buffer size"), strings.Contains(l, "negative len"), strings.Contains(l, "negative cap"),
 		strings.Contains(l, "len larger than cap"), strings.Contains(l, "len > cap"),
 		strings.Contains(l, "cannot convert slice with length"):
 		return "bounds"
